@@ -7,6 +7,7 @@ import (
 	"sort"
 	"strconv"
 	"strings"
+	"time"
 
 	"github.com/shopspring/decimal"
 	"github.com/tyler-sommer/stick"
@@ -162,6 +163,8 @@ func Build(v sb.V) interface{} {
 			return decimal.Zero
 		}
 		return d
+	case "time":
+		return time.Date(2020, 2, 29, 13, 14, 15, 0, time.UTC)
 	case "chan":
 		return make(chan int)
 	case "func":
